@@ -40,7 +40,7 @@ def generate(rng, tier):
     case = gen.gen_case(rng, {
         "p_info": 0.0, "p_demux": 0.12, "p_minimal_report": 0.0, "json": False, "p_stdout": 0.0,
         "in_containers": ("",), "out_containers": ("",), "fastq": True, "p_interleaved_out": 0.0,
-        "n_records": (0, 30),
+        "n_records": (0, 30), "p_interleaved_redirect": 0.0,
     })
     case["input"]["layout"] = "two" if case["paired"] else "single"
     case["input"]["containers"] = [""] * (2 if case["paired"] else 1)
@@ -54,7 +54,7 @@ def generate(rng, tier):
 def expected_format(path, fasta_flag, input_fmt):
     """The documented rule."""
     if path == C.STDOUT:
-        return "fasta" if fasta_flag else input_fmt
+        return "fasta" if fasta_flag else input_fmt  # --fasta concerns standard output only
     name = fmt.strip_container(path).lower()
     if name.endswith((".fasta", ".fa")):
         return "fasta"
@@ -65,7 +65,8 @@ def expected_format(path, fasta_flag, input_fmt):
 
 def _stem(path):
     base = fmt.strip_container(path)
-    return base[: base.rindex(".")]
+    name = base.rsplit("/", 1)[-1]
+    return base[: base.rindex(".")] if "." in name else base
 
 
 def make_variant(base, rng, reference=False):
@@ -119,7 +120,10 @@ def make_variant(base, rng, reference=False):
                 elif reference:
                     classes[pairkey] = [".fastq"] if fmt.strip_container(g[1]).endswith((".fastq", ".fq")) else [".fasta"]
                 else:
-                    classes[pairkey] = [".fastq", ".fq"] if rng.random() < 0.7 else [".fasta", ".fa"]
+                    r_ = rng.random()
+                    classes[pairkey] = [".fastq", ".fq"] if r_ < 0.6 else ([".fasta", ".fa"] if r_ < 0.88 else ["", ".txt", ".out"])
+                if v["fmt"] == "fasta" and not reference and rng.random() < 0.12:
+                    classes[pairkey] = ["", ".txt", ".out"]  # no recognised extension: falls back to the input format
             e = rng.choice(classes[pairkey])
             c = "" if reference else rng.choice(OUT_CONTAINERS)
             outs.append([g[0], _stem(g[1]) + e + c])
@@ -128,6 +132,12 @@ def make_variant(base, rng, reference=False):
     if to_stdout and v["fmt"] == "fastq" and rng.random() < 0.5:
         outs.append(["--fasta"])
         fasta_flag = True
+    elif (not reference) and (not to_stdout) and (not paired) and rng.random() < 0.06:
+        # --fasta is documented for standard output only: a named output keeps the format of its
+        # name (only names with a recognised extension are combined with it)
+        if all(fmt.strip_container(g[1]).endswith((".fastq", ".fq", ".fasta", ".fa")) for g in outs if g[0] in RECORD_OUT_FLAGS):
+            outs.append(["--fasta"])
+            dims["fasta_with_named_output"] = True
     if layout == "interleaved" or out_interleaved:
         outs.append(["--interleaved"])
     v["outs"] = outs
